@@ -574,6 +574,11 @@ func (g *Graph) ClassifyReturn(n *GNode) RetClass {
 			return RetNil
 		}
 		if v, ok := info.Uses[id].(*types.Var); ok {
+			// a concrete (struct) value converted to the error interface is never nil
+			switch v.Type().Underlying().(type) {
+			case *types.Struct:
+				return RetNonNil
+			}
 			if g.W.isSentinelError(v) {
 				return RetNonNil
 			}
